@@ -86,6 +86,25 @@ type Env struct {
 	Single  []*ref.Matcher // one matcher per route (route alone), for contestedness counting
 	Cap     *Capture
 	W       *fx.RW
+	Views   *TxnViews // optional, set by WithViews
+}
+
+// WithViews attaches the transaction views (see TxnViews) to the environment.
+func (e *Env) WithViews() error {
+	v, err := e.BuildTxnViews()
+	if err != nil {
+		return err
+	}
+	e.Views = v
+	return nil
+}
+
+// Done releases the attached views.
+func (e *Env) Done() {
+	if e.Views != nil {
+		e.Views.Close()
+		e.Views = nil
+	}
 }
 
 // collect reads the parameters through Params(); the by-name accessor must agree with it (first
@@ -193,6 +212,90 @@ func Build(set []RouteSpec, prof Profile) (*Env, error) {
 			return nil, fmt.Errorf("route %d (%s): %w", i, s, err)
 		}
 		e.Routes = append(e.Routes, rt)
+	}
+	e.BuildRef()
+	return e, nil
+}
+
+// TxnViews are two more views of the same registered set: a read-only transaction on the router,
+// and a write transaction on another router that holds the set uncommitted on top of a committed
+// tree containing one unrelated one-parameter route under a custom method (so the lookup contexts
+// of the committed tree are sized for fewer parameters than the uncommitted routes bind).
+type TxnViews struct {
+	RO *fox.Txn
+	WT *fox.Txn
+	WF *fox.Router
+}
+
+func (e *Env) BuildTxnViews() (*TxnViews, error) {
+	a := &TxnViews{RO: e.F.Txn(false)}
+	e2 := NewEnv(e.Prof)
+	a.WF = e2.F
+	if _, err := e2.F.Handle("ZZZ", "/zz/{q}", func(fox.Context) {}); err != nil {
+		return nil, err
+	}
+	a.WT = e2.F.Txn(true)
+	for i, s := range e.Set {
+		if _, err := a.WT.Handle(s.Method, s.Pattern, e2.Handler(i), RouteOpts(i, s)...); err != nil {
+			a.WT.Abort()
+			a.RO.Abort()
+			return nil, fmt.Errorf("write txn rejects route accepted by router: %v", err)
+		}
+	}
+	return a, nil
+}
+
+func (a *TxnViews) Close() {
+	a.RO.Abort()
+	a.WT.Abort()
+}
+
+// Disagree observes the lookups of rq through both views and reports the first one that differs from
+// the router's own observation o.
+func (a *TxnViews) Disagree(rq Req, o *Obs) string {
+	var ot Obs
+	for i, l := range []*fox.Txn{a.RO, a.WT} {
+		ObserveLookups(l, rq, &ot)
+		if ot.RevID != o.RevID || ot.RevTsr != o.RevTsr || ot.LkID != o.LkID || ot.LkTsr != o.LkTsr || !SameKV(ot.LkParams, o.LkParams) || ot.ItID != o.ItID {
+			which := "read-only Txn"
+			if i == 1 {
+				which = "write Txn holding the same routes uncommitted"
+			}
+			return fmt.Sprintf("%s answers reverse=(%d,%v) lookup=(%d,%v,[%s]) iter=%d", which, ot.RevID, ot.RevTsr, ot.LkID, ot.LkTsr, KVString(ot.LkParams), ot.ItID)
+		}
+	}
+	return ""
+}
+
+// BuildAfterDelete registers set and one extra pattern (first or last, under method), then deletes
+// the extra again: the registered set is set, the tree went through an insertion and a removal
+// (node splits and merges).
+func BuildAfterDelete(set []RouteSpec, method, extra string, first bool, prof Profile) (*Env, error) {
+	e := NewEnv(prof)
+	e.Set = set
+	addExtra := func() error {
+		_, err := e.F.Handle(method, extra, e.Handler(len(set)))
+		return err
+	}
+	if first {
+		if err := addExtra(); err != nil {
+			return nil, err
+		}
+	}
+	for i, s := range set {
+		rt, err := e.F.Handle(s.Method, s.Pattern, e.Handler(i), RouteOpts(i, s)...)
+		if err != nil {
+			return nil, err
+		}
+		e.Routes = append(e.Routes, rt)
+	}
+	if !first {
+		if err := addExtra(); err != nil {
+			return nil, err
+		}
+	}
+	if _, err := e.F.Delete(method, extra); err != nil {
+		return nil, err
 	}
 	e.BuildRef()
 	return e, nil
